@@ -11,7 +11,9 @@ use rand::prelude::*;
 use crate::{
     constants::ENDEMIC_OT_LABEL, params::consts::*, utils::ExtractBit,
 };
-use k256::{elliptic_curve::group::GroupEncoding, ProjectivePoint, Scalar};
+use k256::{
+    elliptic_curve::group::GroupEncoding, NonZeroScalar, ProjectivePoint, Scalar,
+};
 use std::ops::Neg;
 
 const POINT_BYTES_SIZE: usize = 33;
@@ -161,8 +163,9 @@ impl EndemicOTSender {
             let m_a_1 =
                 r_1_point + h_function(1, idx, session_id, &r_0_point);
 
-            let t_b_0 = Scalar::random(&mut *rng);
-            let t_b_1 = Scalar::random(&mut *rng);
+            // a zero scalar would make both pads H2(idx, identity): draw non-zero ones
+            let t_b_0 = *NonZeroScalar::random(&mut *rng);
+            let t_b_1 = *NonZeroScalar::random(&mut *rng);
 
             let m_b_0 = ProjectivePoint::GENERATOR * t_b_0;
             let m_b_1 = ProjectivePoint::GENERATOR * t_b_1;
